@@ -149,17 +149,8 @@ impl TaikoGradualDifficulty {
         } else {
             loop {
                 let curr = self.diff_objects_iter.next()?;
-                let borrowed = curr.get();
 
-                self.skills.rhythm.process(&borrowed, &self.diff_objects);
-                self.skills.reading.process(&borrowed, &self.diff_objects);
-                self.skills.color.process(&borrowed, &self.diff_objects);
-                self.skills.stamina.process(&borrowed, &self.diff_objects);
-                self.skills
-                    .single_color_stamina
-                    .process(&borrowed, &self.diff_objects);
-
-                if borrowed.base_hit_type.is_hit() {
+                if self.process(curr) {
                     self.attrs.max_combo += 1;
 
                     break;
@@ -169,7 +160,32 @@ impl TaikoGradualDifficulty {
 
         self.idx += 1;
 
+        // Once the last hit has been passed, the trailing non-hit objects are
+        // passed as well so that the final attributes match the regular
+        // calculation which processes all objects.
+        if self.idx == self.total_hits {
+            while let Some(curr) = self.diff_objects_iter.next() {
+                self.process(curr);
+            }
+        }
+
         Some(())
+    }
+
+    /// Process a difficulty object with all skills and return whether its
+    /// object is a hit.
+    fn process(&mut self, curr: &RefCount<TaikoDifficultyObject>) -> bool {
+        let borrowed = curr.get();
+
+        self.skills.rhythm.process(&borrowed, &self.diff_objects);
+        self.skills.reading.process(&borrowed, &self.diff_objects);
+        self.skills.color.process(&borrowed, &self.diff_objects);
+        self.skills.stamina.process(&borrowed, &self.diff_objects);
+        self.skills
+            .single_color_stamina
+            .process(&borrowed, &self.diff_objects);
+
+        borrowed.base_hit_type.is_hit()
     }
 }
 
